@@ -159,6 +159,7 @@ func c04Specs(tier string) []*h.SeqSpec {
 		push("PUT "+b.name+" by its digest", b, func() string { return h.Dig("sha256", b.data) }, "", "", "")
 	}
 	b0 := bodies[0]
+	push("PUT valid image under a 128 character tag (the longest valid one)", b0, func() string { return strings.Repeat("a", 128) }, "", "", "")
 	push("PUT valid image under a 129 character tag", b0, func() string { return strings.Repeat("a", 129) }, "invalid tag", "", "")
 	push("PUT valid image under tag a!b", b0, func() string { return "a!b" }, "invalid tag", "", "")
 	push("PUT valid image under the digest of other content", b0, func() string { return f.Items["I2"].Dig }, "reference is not the digest of the body", "", "")
